@@ -142,6 +142,10 @@ func G1HashToPoint(m []byte) *bn256.G1 {
 // number. Returns 0x01 if Y is an even number and 0x00 if it's odd.
 func yParity(y *big.Int) byte {
 	arr := y.Bytes()
+	// Zero is represented by an empty slice.
+	if len(arr) == 0 {
+		return 0
+	}
 	return arr[len(arr)-1] & 1
 }
 
